@@ -247,7 +247,7 @@ func c06JSONName(name string) string {
 	if c06ConcreteNames {
 		return name
 	}
-	s := verif.StringIn(name+".json", 3, "a-z")
+	s := verif.StringIn(name+".json", verif.L(3), "a-z")
 	verif.Assume(s != "")
 	return s
 }
